@@ -519,6 +519,40 @@ func (env *Env) call(x *SCall) Value {
 	case "allocated":
 		v := env.eval(x.Args[0])
 		return boolVal(And(Gt(v.L[0], I(0)), Lt(v.L[0], env.st.hwm)))
+	case "nobyte":
+		// nobyte(s, c, a, b): byte c does not occur in s[a:b). Stated over absolute positions of
+		// the underlying bytes, so that the fact carries over between a string and its substrings.
+		sv := env.eval(x.Args[0])
+		if !isString(sv.Typ) {
+			env.fail("nobyte: string expected")
+		}
+		c := env.evalI(x.Args[1])
+		a := env.evalI(x.Args[2])
+		b := env.evalI(x.Args[3])
+		env.enc.declareFun("sbyte", []string{"Int", "Int"}, "Int")
+		*env.nb++
+		jn := fmt.Sprintf("j!b%d", *env.nb)
+		j := Term{jn, SInt}
+		body := Implies(And(Le(Add(sv.L[1], a), j), Lt(j, Add(sv.L[1], b))), Not(Eq(app(SInt, "sbyte", sv.L[0], j), c)))
+		return boolVal(Term{"(forall ((" + jn + " Int)) (! " + body.S + " :pattern ((sbyte " + sv.L[0].S + " " + jn + "))))", SBool})
+	case "rwl", "runeatl":
+		// rwl(s, p, q): the number of bytes the runtime's UTF-8 decoder consumes at position p of
+		// string s when decoding s[p:q] (what a range loop over s[..:q] does at p); runeatl: the
+		// rune it yields. Uninterpreted; constrained by the facts assumed at ssa.Next.
+		s := env.eval(x.Args[0])
+		if !isString(s.Typ) {
+			env.fail("%s: string expected", x.Fn)
+		}
+		pp := env.evalI(x.Args[1])
+		q := env.evalI(x.Args[2])
+		env.enc.declareFun("rw", []string{"Int", "Int", "Int"}, "Int")
+		env.enc.declareFun("runeat", []string{"Int", "Int", "Int"}, "Int")
+		env.enc.utf8RangeAxioms()
+		fn := "rw"
+		if x.Fn == "runeatl" {
+			fn = "runeat"
+		}
+		return intVal(app(SInt, fn, s.L[0], Add(s.L[1], pp), Add(s.L[1], q)))
 	case "sameSlice":
 		a := env.eval(x.Args[0])
 		b := env.eval(x.Args[1])
@@ -580,7 +614,7 @@ func (env *Env) call(x *SCall) Value {
 		}
 		_, has := env.vars[id.Name]
 		return boolVal(B(has))
-	case "held", "wheld", "rheld", "unheld":
+	case "held", "wheld", "rheld", "unheld", "done", "oncewf":
 		return env.lockPred(x)
 	case "unchanged":
 		return env.unchanged(x)
